@@ -42,6 +42,7 @@ type ObjectGetter interface {
 }
 
 type typesMap struct {
+	pkg        *types.Package
 	qual       types.Qualifier
 	prefix     string
 	generated  map[string]bool
@@ -52,8 +53,9 @@ type typesMap struct {
 	dedup      bool
 }
 
-func newTypesMap(qual types.Qualifier, prefix string, reserved map[string]struct{}, autoname bool, dedup bool) TypesMap {
+func newTypesMap(pkg *types.Package, qual types.Qualifier, prefix string, reserved map[string]struct{}, autoname bool, dedup bool) TypesMap {
 	return &typesMap{
+		pkg:        pkg,
 		qual:       qual,
 		prefix:     prefix,
 		generated:  make(map[string]bool),
@@ -92,8 +94,8 @@ func (tm *typesMap) TypeStringBypass(typ types.Type) string {
 }
 
 func (tm *typesMap) IsExternal(typ ObjectGetter) bool {
-	q := tm.qual(typ.Obj().Pkg())
-	return q != ""
+	// asking the qualifier would register an import of the package, whether or not the generated code mentions it
+	return typ.Obj().Pkg() != tm.pkg
 }
 
 func (tm *typesMap) SetFuncName(funcName string, typs ...types.Type) (string, error) {
